@@ -211,6 +211,7 @@ def gen_class_with_method(rng, obj0, module='m'):
          'sig': {'pos': [['self', None]], 'kwonly': [], 'varargs': False, 'varkw': False},
          'allow': [], 'deny': [], 'listTypesOk': True, 'obj': obj0 + 1, 'method': False,
          'methods': [f'{module}.{mname}'], '_method_ops': [mop], '_pymodule': module,
+         '_inherited': rng.random() < 0.4,
          '_selector': f'{module}.{cname}', '_kind': 'init', '_api': rng.choice(['register', 'external'])}
   return [mop, cop]
 
